@@ -49,6 +49,14 @@ PROPS: dict[str, dict[str, Any]] = {
         "components": [sched(LB, crash=0.0)],
         "assumptions": ["whole-system composition (worker + channels) is argued in DESIGN §5 C01 from the worker theorems and FIFO delivery"],
     },
+    "C03": {
+        "components": [sched(LB, crash=0.12)],
+        "assumptions": ["'head of the book = the test in hand' relies on the book/queue correspondence (C05, C07) and FIFO channels"],
+    },
+    "C15": {
+        "components": [sched(["load", "worksteal"], crash=0.15)],
+        "assumptions": ["the crash hook is a plugin: its calls to mark_test_pending are the `markPending` ops of the sequences"],
+    },
 }
 
 
